@@ -47,6 +47,10 @@ class VLoop(asyncio.SelectorEventLoop):
             w = self._scheduled[0]._when
             if w > self._vt:
                 self._vt = w
+        if not self._ready and not self._scheduled and not self._stopping:
+            # nothing is runnable and no timer is pending: on a virtual clock (no real I/O) nothing will ever happen again - the
+            # coroutine being run waits for something that cannot come.  Fail the run instead of blocking in select() for ever.
+            raise RuntimeError("virtual-clock loop is idle for ever at t=%s: the awaited operation never completes (deadlock)" % self._vt)
         super()._run_once()
 
     async def create_connection(self, protocol_factory, host=None, port=None, **kw):
